@@ -886,6 +886,9 @@ public:
       unSetup();
       VectorBase<R>::operator=(rhs);
 
+      if(VectorBase<R>::dim() > IdxSet::max())
+         setMax(VectorBase<R>::memSize() + 1);
+
       assert(isConsistent());
 
       return *this;
